@@ -176,6 +176,13 @@ func checkTs(who, leg string, body []byte, pub *published, attach int) *pbt.Viol
 			}
 		}
 	}
+	// every PID that carries PES packets is declared by the program map table (with the stream type checked above)
+	for _, pid := range res.PIDs() {
+		if !(hasV && pid == vpid) && !(hasA && pid == apid) {
+			return pbt.V(leg+"/pes-on-undeclared-pid", "%s: PID %#x carries %d PES packets but no program map table declares it (declared: video %v pid %#x, audio %v pid %#x; codecs %s): a demuxer drops that track",
+				who, pid, len(res.ByPID(pid)), hasV, vpid, hasA, apid, codecPair(cd))
+		}
+	}
 	if cd.Video != "" && !hasV {
 		return pbt.V(leg+"/pmt-missing-track", "%s: the program map table announces no video stream (codec %s): a demuxer cannot recover the video frames", who, cd.Video)
 	}
